@@ -1191,7 +1191,10 @@ class BaseGateway:
             log(self._geterrortext(exc))
         log("finishing receiving thread")
         # wake up and terminate any execution waiting to receive
-        self._channelfactory._finished_receiving()
+        # (under the receive lock, like any other channel state change:
+        # a concurrent setcallback() must not miss the end of the stream)
+        with self._receivelock:
+            self._channelfactory._finished_receiving()
         log("terminating execution")
         self._terminate_execution()
         log("closing read")
